@@ -10,7 +10,8 @@ from vf.tlc import MachineryError
 HOST = {'name': 'server01', 'fqdn': 'db.example.org', 'name_mixed': 'Server01.Example.ORG', 'ipv6_upper': '2001:DB8::7F', 'ipv4': '192.0.2.7', 'ipv6': '2001:db8::7',
         'ipv6_full': '2001:0db8:85a3:0000:0000:8a2e:0370:7334', 'ipv6_scoped': 'fe80::1%eth0',
         'ipv6_scope25': 'fe80::4%25', 'ipv6_scope2512': 'fe80::5%2512',
-        'ipv6_scope1': 'fe80::2%1', 'ipv6_scope15': 'fe80::3%enp0s31f6vlan42', 'ipv6_v4mapped': '::ffff:192.0.2.1'}
+        'ipv6_scope1': 'fe80::2%1', 'ipv6_scope15': 'fe80::3%enp0s31f6vlan42', 'ipv6_v4mapped': '::ffff:192.0.2.1',
+        'ipv6_v4full': '0000:0000:0000:0000:0000:ffff:192.168.100.100', 'ipv6_v4full_scoped': '0000:0000:0000:0000:0000:ffff:192.168.100.100%eth0'}
 assert len(HOST['ipv6_scope15'].split('%')[1]) == 15
 QUERY = {'none': None, 'empty': '', 'single': 'a=1', 'repeat': 'a=1&b=2&a=3', 'blank_value': 'a=&b=', 'amp_only': '&&'}
 FRAG = {'none': None, 'frag': 'frag', 'with_q': 'sec?x=1'}
@@ -43,7 +44,7 @@ def run(ctx):
     import netaddr
     from oslo_utils import netutils
     from vf import purity
-    _rec = purity.Recorder(netutils, ['parse_host_port', 'escape_ipv6', 'get_mac_addr_by_ipv6', 'urlsplit'], every=1)
+    _rec = purity.Recorder(netutils, ['parse_host_port', 'escape_ipv6', 'get_mac_addr_by_ipv6', 'get_ipv6_addr_by_EUI64', 'urlsplit'], every=1)
     _rec.__enter__()
     quick = ctx.quick
     ctx.assumptions += [
@@ -167,6 +168,11 @@ def run(ctx):
                         if vals:
                             want[name] = vals[0] if len(vals) == 1 else (vals[-1] if collapse else list(vals))
                     gotp = call(r.params, collapse)
+                    if gotp[0] == 'ok' and type(gotp[1]) is not dict:
+                        ctx.beyond('Eui64', {'kind': 'params-container', 'type': type(gotp[1]).__name__},
+                                   {'url': url, 'collapse': collapse, 'observed': repr(gotp[1])[:200]},
+                                   'urlsplit(%r).params(collapse=%s) returns a %s, the module a plain dict (a missing name is a KeyError)' % (
+                                       url, collapse, type(gotp[1]).__name__))
                     if gotp[0] == 'ok' and isinstance(gotp[1], dict) and gotp == ('ok', want):
                         # the caller owns the dict it gets: edit it, ask again (here and on a fresh result object)
                         gotp[1]['limit'] = 'added by the caller'
